@@ -189,8 +189,67 @@ func runC14(t *testing.T, run *mc.Run) int {
 			samples = append(samples, g.Recs[0].Line)
 		}
 	}
+	// a compound group whose records are separated by many complete events of the same session (a burst between
+	// the SYSCALL record and its EXECVE/CWD/PATH records): it is still rendered from ALL its records
+	widths := []int{1, 63, 64, 65, 200}
+	if run.Thorough() {
+		widths = append(widths, 500, 900) // (the reassembler's window is 1000 events)
+	}
+	for _, k := range widths {
+		n++
+		nontriv++
+		var msg string
+		bubble(t, func() {
+			r := startRead(0)
+			defer r.stop()
+			lg := mkLogin(bindPID, "1")
+			snapshot := identity(lg.Source)
+			r.offerLogin(lg)
+			r.offerLine(bindLines("7"))
+			g := auditgen.Syscall(1700000500, 5000, "7", "4243", "yes", []string{"ls", "--color=auto", "my dir"}, 2, false)
+			r.offerLine(g.Recs[0].Line + "\n")
+			for i := 0; i < k; i++ {
+				r.offerLine(auditgen.Simple("USER_ACCT", 1700000501, 5001+i, "7", "4242", "success").Recs[0].Line + "\n")
+			}
+			for _, rec := range g.Recs[1:] {
+				if !r.offerLine(rec.Line + "\n") {
+					msg = "the processor stopped consuming lines: " + fmt.Sprint(r.ret)
+					return
+				}
+			}
+			vsleep(3 * time.Second)
+			evs, bad := r.w.events()
+			if len(bad) > 0 || r.returned {
+				msg = fmt.Sprintf("bad writes %d, processor returned %v (%v)", len(bad), r.returned, r.ret)
+				return
+			}
+			if len(evs) != k+2 {
+				msg = fmt.Sprintf("%d events emitted for the binding LOGIN record + %d simple events + 1 compound event, want %d", len(evs), k, k+2)
+				return
+			}
+			for i := range evs {
+				if evs[i].LoggedAt.Equal(time.Unix(g.Sec, 123e6)) {
+					msg = checkRendered(&evs[i], g, snapshot)
+					return
+				}
+			}
+			msg = "the compound event was not emitted"
+		})
+		if msg != "" {
+			run.Violation(fmt.Sprintf("C14:SYSCALL:records-separated-by-other-events:%s", firstN(msg, 3)), map[string]any{"separated_by": k},
+				fmt.Sprintf("SYSCALL record, then %d complete single-record events, then the EXECVE/CWD/PATH/PROCTITLE records of the same kernel event: %s", k, msg))
+		}
+	}
 	cov := mc.Coverage{Level: "exploration", Evaluations: n, Distinct: nontriv, Exhaustive: true, Samples: samples,
-		Rule:  "full product of the audit record-group generator (10 simple record types x result tokens; SYSCALL(+EXECVE argc 0/1/3)(+CWD)(+PATH x0..2)+PROCTITLE(+EOE) x success yes/no; sessions incl. 4294967295), each group's lines fed one by one to the real Auditd.Read (parser -> reassembler -> callback -> tracker) in a synctest bubble, once with the login known first and once with the login arriving last (event released from the hold queue); emitted UserAction compared field by field with the generating values and with aucoalesce's summary of the same records. distinct_nontrivial = compound groups",
+		Rule:  "full product of the audit record-group generator (10 simple record types x result tokens; SYSCALL(+EXECVE argc 0/1/3)(+CWD)(+PATH x0..2)+PROCTITLE(+EOE) x success yes/no; sessions incl. 4294967295), each group's lines fed one by one to the real Auditd.Read (parser -> reassembler -> callback -> tracker) in a synctest bubble, once with the login known first and once with the login arriving last (event released from the hold queue); emitted UserAction compared field by field with the generating values and with aucoalesce's summary of the same records; plus a compound group whose SYSCALL record is separated from its other records by 1 / 63 / 64 / 65 / 200 (thorough: 500, 900) complete events. distinct_nontrivial = compound groups",
 		Extra: map[string]any{"groups": n}}
 	return run.Finish(cov)
+}
+
+func firstN(s string, n int) string {
+	f := strings.Fields(s)
+	if len(f) > n {
+		f = f[:n]
+	}
+	return strings.Join(f, "_")
 }
